@@ -181,7 +181,8 @@ pub fn new_iset(probe: &ProbeLog) -> InstructionSet {
         Instruction::new(|_st: &mut PushState, _c: &InstructionCache| {}),
     );
     // ... without a dot, starting with a lower-case letter, starting with a digit
-    for name in ["VERIFSQUARE", "verif.lower", "2VERIF"].iter() {
+    // ... and names that would read as an integer / float literal (an instruction name wins)
+    for name in ["VERIFSQUARE", "verif.lower", "2VERIF", "424242", "4.25"].iter() {
         iset.add(name.to_string(), Instruction::new(|_st: &mut PushState, _c: &InstructionCache| {}));
     }
     let p2 = probe.clone();
